@@ -142,7 +142,7 @@ func (m *Machine) endPath(kind, msg string) {
 
 // goPanic raises an interpreted run-time panic.
 func (m *Machine) goPanic(msg string) {
-	panic(&goPanicV{V: &IfaceV{T: m.P.rtErrType, V: concStr(msg)}, Msg: msg, RT: true})
+	panic(&goPanicV{V: &IfaceV{T: m.P.rtErrType, V: concStr(msg)}, Msg: msg + m.stack(), RT: true})
 }
 
 // ---- path condition ------------------------------------------------
